@@ -685,6 +685,9 @@ func (d *urlValuesDecoder) DecodeObject(param string, sm *openapi3.Serialization
 						// an undeclared key is not known to belong to this object
 						continue
 					}
+					if len(values) == 0 {
+						continue // a caller-supplied map may hold a key without values
+					}
 					props[key] = values[0]
 				}
 				return props, nil
